@@ -1652,6 +1652,9 @@ pub mod verif_hooks {
     use super::*;
     pub use super::SizeStats;
 
+    /// `constants::MIN_INDEX_LEN`: an index file with fewer blobs is always rebuilt by prune.
+    pub const MIN_INDEX_LEN: usize = constants::MIN_INDEX_LEN;
+
     /// What the planner decided for one pack (captured before `filter_index_files` drops index files).
     #[derive(Debug, Clone)]
     pub struct PackDecision {
